@@ -3,6 +3,7 @@ from core import Case, call_impl
 from props.tr31util import VERS, rb, rs, rand_blocks, make_header, header_tuple, wrap_case, tr31, Session, clone_header
 
 OBLIGATIONS = ["Psec.Props.C12.wrap_framing", "Psec.Props.C12.str_reload", "Psec.Props.C12.pad_block_arith", "Psec.Tr31.blocksDump_shape", "Psec.Tr31.blocksDump_printable"]
+TABLE_OBLIGATIONS = ["Psec.Tables.header_block_size_agree", "Psec.Tables.header_mac_len_agree", "Psec.Tables.ascii_pa_agree", "Psec.Tables.ascii_an_agree"]   # model = tables regenerated from the source (harness/tables.py)
 TRUSTED_BASE = ["Lean 4.33 kernel", "correspondence harness (entropy interposed) and compiled driver", "the framing predicate below is an independent Python reading of the property"]
 RULE = ("all versions x optional-block multisets: total block length exhaustively over 0..(quick 200 / thorough 600) for both block sizes, around 251/252 data bytes, 98/99 blocks, "
         "key block length 9984..9999 and beyond x key lengths x masks; str(Header) re-load; distinct = distinct driver lines")
